@@ -2,13 +2,16 @@
 """seedstore.py Cxx k [detected_by...] : copy a verified seeded change from its scratch worktree /tmp/wt/Cxx/_seed into
 /verif/seeded/Cxx-k/ (patch.diff, demonstration, meta.json)."""
 import json
+import os
 import shutil
 import sys
 from pathlib import Path
 
 pid, k = sys.argv[1], sys.argv[2]
-sd = Path(f'/tmp/wt/{pid}/_seed')
-out = Path(f'/verif/seeded/{pid}-{k}')
+root = os.environ.get('SEEDROOT', '/tmp/wt')
+sid = int(k) + int(os.environ.get('SEEDOFFSET', '0'))      # second wave: SEEDROOT=/tmp/wt2 SEEDOFFSET=2
+sd = Path(f'{root}/{pid}/_seed')
+out = Path(f'/verif/seeded/{pid}-{sid}')
 out.mkdir(parents=True, exist_ok=True)
 shutil.copy(sd / f'patch{k}.diff', out / 'patch.diff')
 demos = []
@@ -24,12 +27,12 @@ for nm in ('with', 'without'):
     ver[f'demo_{nm}_change_tail'] = p.read_text()[-600:] if p.exists() else None
 ts = sd / f'verify{k}.tests.summary'
 meta = {
-    'id': f'{pid}-{k}', 'property': pid, 'summary': m.get('summary'), 'needs_to_manifest': m.get('needs'),
+    'id': f'{pid}-{sid}', 'wave': 2 if sid > 2 else 1, 'property': pid, 'summary': m.get('summary'), 'needs_to_manifest': m.get('needs'),
     'files': m.get('files'), 'demonstration': sorted(demos),
     'author': 'independent sub-agent given only the property text and a scratch worktree (nothing from /verif)',
     'author_verification': m.get('verified'),
     'my_verification': {
-        'how': f'harness/seedverify.sh {pid} {k} in the scratch worktree /tmp/wt/{pid}: apply patch, run the demonstration '
+        'how': f'harness/seedverify.sh {pid} {k} in the scratch worktree {root}/{pid}: apply patch, run the demonstration '
                '(must exit non-zero), run the whole pytest suite (all 235 stable baseline tests must pass), revert, run the '
                'demonstration again (must exit 0)',
         'tests': ts.read_text().strip() if ts.exists() else None, **ver},
